@@ -229,21 +229,38 @@ def run(tier, seed, only=None):
         x0, cch = var("x0"), var("c")
         ys = [var("ya"), var("yb")]
         xi = [ZERO, ONE] if nx == 2 else [ZERO, var("xi"), ONE]
-        mesh = np.array([[[x0 + cch * xi[i], ys[j], ZERO] for j in range(2)] for i in range(nx)], dtype=object)
+        # constant chord, swept by x = x0 + t y: one panel of *any* width (ya < yb), so what is shown holds at every spanwise resolution
+        tsw = var("tan_sweep")
+        mesh = np.array([[[x0 + tsw * ys[j] + cch * xi[i], ys[j], ZERO] for j in range(2)] for i in range(nx)], dtype=object)
         adm = [gt(cch, 0), lt(ys[0], ys[1])] + ([gt(xi[1], 0), lt(xi[1], 1)] if nx == 3 else [])
         o = sc.sym1({"def_mesh": mesh}, assumptions=adm)
         obs = [oblig.Ob("lengths[%d] == chord (nx=%d)" % (j, nx), lhs=o["lengths"][j], rhs=cch, assume=adm,
                         meta={"family": "strip chord length is independent of the chordwise panel count on a flat wing"}) for j in range(2)]
         obs += [oblig.Ob("widths == dy (nx=%d)" % nx, lhs=o["widths"][0], rhs=ys[1] - ys[0], assume=adm, meta={"family": "strip width is independent of the chordwise panel count"})]
+        # the sweep cosine both drag estimates use is widths / lengths_spanwise: it must be that of the quarter-chord line whatever the panel size
+        lsq = o["lengths_spanwise"][0]
+        obs += [oblig.Ob("lengths_spanwise^2 == (1 + tan^2 sweep) dy^2 (nx=%d)" % nx, lhs=lsq * lsq / ((ys[1] - ys[0]) * (ys[1] - ys[0])), rhs=ONE + tsw * tsw, assume=adm,
+                         meta={"family": "the quarter-chord panel length, and with it the sweep cosine of the drag estimates, is independent of the panel size"}),
+                oblig.Ob("lengths_spanwise >= 0 (nx=%d)" % nx, cond=lt(lsq, 0), assume=adm,
+                         meta={"family": "the quarter-chord panel length, and with it the sweep cosine of the drag estimates, is independent of the panel size"})]
         def geo_rp(ob, env, sc=sc, nx=nx):
-            x0v, cv, ya, yb, xiv = 0.3, 1.7, -2.0, -0.5, 0.37
+            x0v, cv, xiv, tv = 0.3, 1.7, 0.37, 0.5
             xs = [0.0, 1.0] if nx == 2 else [0.0, xiv, 1.0]
-            mv = np.array([[[x0v + cv * xs[i], (ya, yb)[j], 0.0] for j in range(2)] for i in range(nx)], dtype=float)
-            real = sc.real({"def_mesh": mv})
-            bad = np.abs(real["lengths"] - cv).max() > 1e-9 or abs(real["widths"][0] - (yb - ya)) > 1e-9
-            return bad, "flat wing of chord %.3g, nx=%d: strip chords %s, width %s" % (cv, nx, real["lengths"], real["widths"])
+            worst, msg = 0.0, ""
+            # panels from metres down to millimetres (small models, fine meshes)
+            for ya, yb in ((-2.0, -0.5), (-0.25, -0.125), (-0.0625, -0.0625 + 2.0 ** -9)):
+                mv = np.array([[[x0v + tv * (ya, yb)[j] + cv * xs[i], (ya, yb)[j], 0.0] for j in range(2)] for i in range(nx)], dtype=float)
+                real = sc.real({"def_mesh": mv})
+                cosw = float(real["widths"][0] / real["lengths_spanwise"][0])
+                e = max(float(np.abs(real["lengths"] - cv).max()), abs(float(real["widths"][0]) - (yb - ya)), abs(cosw - 1.0 / np.sqrt(1.0 + tv * tv)))
+                if e > worst:
+                    worst, msg = e, "constant-chord wing (chord %.3g, tan sweep %.3g, nx=%d), panel width %.4g: strip chords %s, width %.9g, widths/lengths_spanwise %.9g (cos sweep %.9g)" % (
+                        cv, tv, nx, yb - ya, real["lengths"], float(real["widths"][0]), cosw, 1.0 / np.sqrt(1.0 + tv * tv))
+            return worst > 1e-9, msg or "strip geometry reproduced at three panel sizes"
 
-        run_obligations(rep, "strip geometry nx=%d" % nx, obs, timeout, levels=(2,), family=lambda ob: "VLMGeometry: " + ob.meta["family"], replay=geo_rp)
+        # (witnesses are looked for on a millimetre panel first: a length that is off by an absolute amount shows there)
+        run_obligations(rep, "strip geometry nx=%d" % nx, obs, timeout, levels=(2,), family=lambda ob: "VLMGeometry: " + ob.meta["family"], replay=geo_rp,
+                        fixed={"ya": (-0.0625, -2.0), "yb": (-0.0625 + 2.0 ** -9, -0.5), "tan_sweep": 0.5, "c": 1.75, "x0": 0.25, "xi": 0.375})
     rep.bounds = {"ny": nys}
     rep.assumptions = ["real arithmetic", "log/pow are uninterpreted atoms with instantiated sign/monotonicity facts; ln(Re_c k_lam) > ln(1e3) given as the admissibility box",
                        "Re-monotonicity and positivity with transition (0 < k_lam < 1) need x/log10(x)^2.58 monotone: posed and reported inconclusive if undecided"]
